@@ -424,24 +424,41 @@ def py_int_of_str(p, s):
 
 
 def py_int_of_hex(p, s):
-    """int(str, 16) for ASCII hex digits with optional sign / 0x prefix is not modelled beyond
-    plain digits: plain hex digits only (what the firmware payload parsers use)."""
+    """int(str, 16): CPython grammar  ws* [+-]? (0[xX] _?)? hexdigit (_? hexdigit)* ws*  where any
+    Unicode Nd digit counts as its decimal value (CPython maps them to ASCII first, so a non-ASCII
+    zero can also start the prefix); one symbolic DFA run, a single fork on accept/reject."""
     s = expand(p, lift_str(s))
-    if not s.cs:
-        raise prog(ValueError("invalid literal for int() with base 16: ''"))
-    ok = []
+    st = z3.IntVal(0)
+    neg = z3.BoolVal(False)
     acc = z3.IntVal(0)
+    # states: 0 leading ws, 1 sign, 2 first digit was a zero (maybe a prefix), 3 after 0x,
+    # 4 after 0x_, 5 digits, 6 '_' after a digit, 7 trailing ws, 9 dead
     for c in s.cs:
         c = _lit(c)
-        is_d = z3.And(c >= 48, c <= 57)
-        is_u = z3.And(c >= 65, c <= 70)
-        is_l = z3.And(c >= 97, c <= 102)
-        ok.append(z3.Or(is_d, is_u, is_l))
-        acc = 16 * acc + z3.If(is_d, c - 48, z3.If(is_u, c - 55, c - 87))
-    if not p.branch(z3.And(ok)):
-        # signs, prefixes, underscores and whitespace are legal for int(x, 16) but not modelled
-        raise Cut("int(text, 16) on text that is not plain hex digits")
-    return mk_int(acc)
+        W = in_ranges(c, NUMWS_RANGES)
+        D = in_ranges(c, DIGIT_BLOCKS)
+        L = z3.Or(z3.And(c >= 65, c <= 70), z3.And(c >= 97, c <= 102))
+        H = z3.Or(D, L)
+        Z = z3.And(D, digit_val(c) == 0)
+        X = z3.Or(c == 120, c == 88)
+        S = z3.Or(c == PLUS, c == MINUS)
+        U = c == UNDERSCORE
+        nxt = z3.If(st == 0, z3.If(W, 0, z3.If(S, 1, z3.If(Z, 2, z3.If(H, 5, 9)))),
+              z3.If(st == 1, z3.If(Z, 2, z3.If(H, 5, 9)),
+              z3.If(st == 2, z3.If(X, 3, z3.If(H, 5, z3.If(U, 6, z3.If(W, 7, 9)))),
+              z3.If(st == 3, z3.If(H, 5, z3.If(U, 4, 9)),
+              z3.If(st == 4, z3.If(H, 5, 9),
+              z3.If(st == 5, z3.If(H, 5, z3.If(U, 6, z3.If(W, 7, 9))),
+              z3.If(st == 6, z3.If(H, 5, 9),
+              z3.If(st == 7, z3.If(W, 7, 9), 9))))))))
+        neg = z3.If(z3.And(st == 0, c == MINUS), z3.BoolVal(True), neg)
+        val = z3.If(D, digit_val(c), z3.If(c <= 70, c - 55, c - 87))
+        acc = z3.If(z3.And(H, nxt == 5), 16 * acc + val, acc)
+        st = nxt
+    ok = z3.Or(st == 2, st == 5, st == 7)
+    if not p.branch(ok):
+        raise prog(ValueError("invalid literal for int() with base 16"))
+    return mk_int(z3.If(neg, -acc, acc))
 
 
 def s_case(p, s, name):
